@@ -636,6 +636,9 @@ pub enum BlockKind {
     GeneratorMultiple,
     /// one repeated byte
     Constant(u8),
+    /// the previous block again except for ONE byte (at a generated position): 0 complemented, 1 set to 00, 2 set to FF,
+    /// 3 incremented - two neighbouring blocks that agree up to a point and then differ by a chosen pair of values
+    NearCopy { at: u16, how: u8 },
 }
 
 pub fn block_kind() -> BoxedStrategy<BlockKind> {
@@ -645,7 +648,8 @@ pub fn block_kind() -> BoxedStrategy<BlockKind> {
         4 => (0u8..2, 0u8..4).prop_map(|(phase, deviation)| BlockKind::Pad { phase, deviation }),
         1 => Just(BlockKind::CopyOfPrevious),
         2 => Just(BlockKind::GeneratorMultiple),
-        1 => any::<u8>().prop_map(BlockKind::Constant),
+        1 => prop_oneof![2 => any::<u8>(), 1 => Just(0xFFu8), 1 => Just(0x01u8), 1 => Just(0x80u8)].prop_map(BlockKind::Constant),
+        3 => (any::<u16>(), 0u8..4).prop_map(|(at, how)| BlockKind::NearCopy { at, how }),
     ]
     .boxed()
 }
@@ -693,6 +697,22 @@ pub fn block_payload(version: usize, level: Level, kinds: &[BlockKind], noise: &
                 (0..len).map(|i| d[off - pl + i % pl]).collect()
             }
             BlockKind::CopyOfPrevious => (0..len).map(|i| next(i)).collect(),
+            BlockKind::NearCopy { at, how } => {
+                let mut v: Vec<u8> = if b > 0 {
+                    let pl = lay.data_len(b - 1);
+                    (0..len).map(|i| d[off - pl + i % pl]).collect()
+                } else {
+                    (0..len).map(|i| next(i)).collect()
+                };
+                let p = pick(at, len);
+                v[p] = match how {
+                    0 => !v[p],
+                    1 => 0x00,
+                    2 => 0xFF,
+                    _ => v[p].wrapping_add(1),
+                };
+                v
+            }
             BlockKind::GeneratorMultiple => {
                 // q(x) of degree len - 1 - ec times g(x) (degree ec): a codeword polynomial of degree len - 1 ... the
                 // block is the DATA part only, so take data = first `len` coefficients of (m(x) * x^ec + remainder):
